@@ -23,6 +23,8 @@ func rulesC15(c *Ctx) {
 	// the patterns find the end of the quoted password at the first unescaped quote
 	stringEndRule(c, "C15.strend")
 	wholeTextC15(c)
+	allMatchesRule(c, "C15.allmatches", "Sanitize")
+	regexConfigRule(c, "C15.regexconfig")
 	freshBufC15(c)
 	// ---- no reader ----
 	c.Rule("C15.noreader", "the Password fields of CreateUserStatement and SetPasswordUserStatement are stored by their parse functions and read nowhere in the package: no printer, formatter or encoder can leak what it never loads; statements holding a password are never handed to fmt by value")
